@@ -81,6 +81,19 @@ def rebuilds(repo, quick_classes=CLASSES):
     return out
 
 
-def derives_from(v, sources, fname) -> bool:
+def derives_from(v, sources, fname, allow_none: bool = False) -> bool:
+    """On every path where the source's field is set, the value is built from that
+    field (a None result is only acceptable where the source field itself is None)."""
     want = {("attr", s, fname) for s in sources}
-    return any(s in want for s in T.subterms(v))
+    if not any(s in want for s in T.subterms(v)):
+        return False
+    for w in want:
+        v = T.select(v, ("is", w, T.NONE), False)
+    for leaf in T.phi_leaves(v):
+        if leaf == T.NONE:
+            if allow_none:
+                continue
+            return False
+        if not any(s in want for s in T.subterms(leaf)):
+            return False
+    return True
